@@ -43,11 +43,14 @@ def retainBranches (api : EvalApi) : List (Expr × Block) → Retain Block → L
         let (r, st2) := retainBranches api rest st
         ((c, b) :: r, st2)
 
+/-- `if else_block.is_empty() { if_statement.take_else_block(); }` -/
+def dropEmptyElse : Option Block → Option Block
+  | some b => if blockIsEmpty b then none else some b
+  | none => none
+
 /-- `FilterResult`, as the list of statements that replaces the `if` (none / the `do` / the `if`) -/
 def simplifyIfStatement (api : EvalApi) (branches : List (Expr × Block)) (els : Option Block) : List Stmt :=
-  let els1 : Option Block := match els with
-    | some b => if blockIsEmpty b then none else some b
-    | none => none
+  let els1 : Option Block := dropEmptyElse els
   let (kept, st) := retainBranches api branches {}
   if kept.isEmpty then
     match st.replaceElse with
